@@ -68,7 +68,13 @@ pub fn dispatch(id: &str, tier: Tier, replay: Option<&str>, budget: Duration) ->
 /// Run the check of property `id` into `report`; false if there is no such check.
 pub fn run_check(id: &str, report: &mut Report, budget: Duration) -> bool {
     match id {
-        "C05" | "C18" => e1::run(id, report, budget),
+        "C05" => e1::run(id, report, budget),
+        "C18" => {
+            e1::run(id, report, budget);
+            let n = e4::run_abandoned_reader(report);
+            report.add("traces_validated_against_impl", n);
+            report.set("real_transport_abandoned_reader_cases", n);
+        }
         "C02" => {
             e2::run(id, report, budget);
             let n = e6::c02_slice(report);
